@@ -10,6 +10,8 @@ import try_patch  # noqa
 
 def one(name, checks, tier):
     patch = os.path.join(VERIF, "seeded", name, "patch.diff")
+    if checks == "own":
+        checks = [json.load(open(os.path.join(VERIF, "seeded", name, "meta.json")))["property"]]
     if name.endswith(".diff"):
         patch = os.path.join(VERIF, "refactors", name)
     root, tree = try_patch.scratch_copy(patch)
@@ -30,6 +32,7 @@ def main():
     ap.add_argument("--checks", default="")
     ap.add_argument("--tier", default="quick")
     ap.add_argument("--jobs", type=int, default=3)
+    ap.add_argument("--own", action="store_true", help="run only the check of the property each change was written against")
     ap.add_argument("--refactors", action="store_true", help="run the benign patches in refactors/ instead (all must stay silent)")
     a = ap.parse_args()
     m = json.load(open(os.path.join(VERIF, "MANIFEST.json")))
@@ -42,6 +45,8 @@ def main():
     if a.seeds:
         names = [n for n in names if n in a.seeds.split(",")]
     result = {}
+    if a.own:
+        checks = "own"
     with cf.ThreadPoolExecutor(a.jobs) as ex:
         for name, res in ex.map(lambda n: one(n, checks, a.tier), names):
             result[name] = res
